@@ -94,6 +94,18 @@ def run(ck):
     R.check_lin_equal(ck, read_path(it, env, lv, "packet_len"), PD.blen("value") + Lin({}, 1), "CfdpLv.packet_len", "packet_len == len(value) + 1")
     st, m = D.prove(env.facts, binop("<=", length(sym("value", ty="bytes")), C(255)))
     ck.verdict("G-REFUSE", "CfdpLv.__init__", "a value longer than 255 octets is refused", [] if st == "proved" else [f"{st}: {m}"], "guard")
+    # equality (round trip "returns the same type and value" is observed with ==)
+    it = new_interp(P); env = Env()
+    try:
+        tt = P.cls(f"{DEFS}.TlvType").qual
+        ta = construct(it, env, f"{TL}.CfdpTlv", dict(tlv_type=sym("type_a", ty=tt), value=sym("value_a", ty="bytes")))
+        tb = construct(it, env, f"{TL}.CfdpTlv", dict(tlv_type=sym("type_b", ty=tt), value=sym("value_b", ty="bytes")))
+        R.check_eq_pair(ck, it, env, ta, tb, ["type_a", "value_a"], ["type_b", "value_b"], "CfdpTlv.__eq__ (AbstractTlvBase)")
+        la = construct(it, env, "cfdp.lv.CfdpLv", dict(value=sym("value_a", ty="bytes")))
+        lb = construct(it, env, "cfdp.lv.CfdpLv", dict(value=sym("value_b", ty="bytes")))
+        R.check_eq_pair(ck, it, env, la, lb, ["value_a"], ["value_b"], "CfdpLv.__eq__")
+    except Unsupported as e:
+        ck.unknown("Q-EQ", "CfdpTlv.__eq__", "equality analysed", str(e))
     # decoders
     it = new_interp(P); env = Env()
     dec = R.run_guarded(ck, "W-UNPACK", "CfdpTlv.unpack", "decode", lambda: call_method(it, env, T("class", P.cls(f"{TL}.CfdpTlv").qual), "unpack", [data]))
